@@ -111,7 +111,7 @@ class Repeat(ArrayOpSpec):
 @register
 class Stack(ArrayOpSpec):
     """stack(arrays, axis): result[.., j, ..] == arrays[j][..]  (NumPy requires equal shapes)"""
-    quick_props = ('C01',)
+    quick_props = ('C01', 'C17')
 
     target = f"{MF}:stack"
 
@@ -150,6 +150,109 @@ class Stack(ArrayOpSpec):
         labels = [f"a{j}" for j in range(k)]
         return ({l: (nd, None) for l in labels}, f"lambda xp, a: xp.stack([a[l] for l in {labels!r}], axis={ax})",
                 f"lambda np, a: np.stack([a[l] for l in {labels!r}], axis={ax})")
+
+
+@register
+class Elemwise(ArrayOpSpec):
+    """elemwise(f, x, y, dtype=): operands of equal or broadcastable shapes, *chunked independently of each other*:
+    result[g] == f(x[g'], y[g'']) with NumPy's broadcasting of the global index; every task receives argument blocks
+    of broadcast-compatible shapes (the operands are brought to a common block structure first)."""
+    quick_props = ('C01', 'C17', 'C12')
+
+    target = "cubed.core.ops:elemwise"
+
+    def configs(self, tier):
+        out = [dict(ndim=1, bcast=None)]
+        if tier != "quick":
+            out += [dict(ndim=2, bcast=None), dict(ndim=2, bcast="y-row"), dict(ndim=2, bcast="y-lower-rank")]
+        else:
+            out += [dict(ndim=2, bcast="y-lower-rank")]
+        return out
+
+    def setup(self, c):
+        from .c01_reduce import ElemwiseFn
+
+        nd, bc = c.cfg["ndim"], c.cfg["bcast"]
+        x = sym_array(c, "x", nd)
+        if bc == "y-lower-rank":
+            y = sym_array(c, "y", nd - 1)
+            c.assume(y.shape[0] == x.shape[-1])
+        elif bc == "y-row":
+            y = sym_array(c, "y", nd, fixed={0: 1})
+            c.assume(y.shape[1] == x.shape[1])
+        else:
+            y = sym_array(c, "y", nd)
+            for n0, n1 in zip(x.shape, y.shape):
+                c.assume(n0 == n1)
+        ynd = len(y.shape)
+
+        def exp(j, g):
+            gy = tuple(g[nd - ynd:])
+            if bc == "y-row":
+                gy = (0,) + tuple(gy[1:])
+            return (f"f({x.name},{y.name})", tuple(g) + gy)
+
+        c.expect_origin = exp
+        return (ElemwiseFn("f"), x, y), dict(dtype=x.dtype)
+
+    def ensures(self, c, a, k, res):
+        yield "shape", c.eq_tuple(res.shape, a[1].shape)
+
+    def replay_case(self, cfg, model):
+        nd, bc = cfg["ndim"], cfg["bcast"]
+        m = dict(model)
+        if bc == "y-lower-rank":
+            arrays = {"x": (nd, None), "y": (nd - 1, None)}
+            m["y_n0"] = m.get(f"x_n{nd - 1}", 0)
+        elif bc == "y-row":
+            arrays = {"x": (nd, None), "y": (nd, {0: 1})}
+            m["y_n1"] = m.get("x_n1", 0)
+        else:
+            arrays = {"x": (nd, None), "y": (nd, None)}
+            for i in range(nd):
+                m[f"y_n{i}"] = m.get(f"x_n{i}", 0)
+        model.update(m)
+        return (arrays, "lambda xp, a: xp.add(a['x'], a['y'])", "lambda np, a: np.add(a['x'], a['y'])")
+
+
+@register
+class UnifyChunks(ArrayOpSpec):
+    """unify_chunks(x, ind, y, ind): the returned arrays have, along every shared index, the same chunk structure
+    (so corresponding blocks cover the same region), their shapes are unchanged and they hold the same values."""
+    quick_props = ('C17', 'C01')
+
+    target = "cubed.core.ops:unify_chunks"
+
+    def configs(self, tier):
+        return [dict(ndim=1)] + ([dict(ndim=2)] if tier != "quick" else [])
+
+    def setup(self, c):
+        nd = c.cfg["ndim"]
+        x, y = sym_array(c, "x", nd), sym_array(c, "y", nd)
+        for n0, n1 in zip(x.shape, y.shape):
+            c.assume(n0 == n1)
+        ind = tuple(range(nd))[::-1]
+        c.expect_origin = None
+        return (x, ind, y, ind), {}
+
+    def ensures(self, c, a, k, res):
+        chunkss, arrays = res
+        x, _, y, _ = a
+        yield "two-arrays", len(arrays) == 2
+        ux, uy = arrays
+        yield "shapes-unchanged", c.And(c.eq_tuple(ux.shape, x.shape), c.eq_tuple(uy.shape, y.shape))
+        al = getattr(c, "aliases", {})
+
+        def root(n):
+            while n in al:
+                n = al[n]
+            return n
+
+        yield "same-values", root(ux.name) == x.name and root(uy.name) == y.name
+        for i in range(len(x.shape)):
+            gx, gy = ux.chunks[i], uy.chunks[i]
+            # same block structure along the axis: equal number of blocks and equal block size
+            yield f"common-block-structure[{i}]", c.And(gx.length() == gy.length(), gx.first(c.interp) == gy.first(c.interp))
 
 
 @register
